@@ -32,6 +32,8 @@ type Frame struct {
 	isTop  bool
 	walkInv *walkCtx
 	parent *Frame
+	xsigs  map[string]FunSig
+	xsyms  map[string]string
 }
 
 type deferred struct {
@@ -93,6 +95,8 @@ type Exec struct {
 	gasMeters  map[int]GasV
 	dynCtxArgs []ssa.Value
 	localTypes map[string]types.Type
+	freeBind   map[ssa.Value]Value
+	bindState  *State
 	nextGas    int
 	epochs     int
 }
@@ -1039,7 +1043,7 @@ func (x *Exec) step(st *State, fr *Frame, in ssa.Instruction) {
 	case *ssa.Lookup:
 		x.lookup(st, fr, ins)
 	case *ssa.Range:
-		fr.env[ins] = MapIterV{Map: x.val(fr, st, ins.X)}
+		fr.env[ins] = x.newMapIter(st, fr, x.val(fr, st, ins.X))
 	case *ssa.Next:
 		x.nextIter(st, fr, ins)
 	case *ssa.SliceToArrayPointer:
